@@ -1438,3 +1438,53 @@ def dimension_aware_sizing_rule(ctx, rid, prefixes, floor=2):
                f'`{ast.unparse(hits[0])}` sizes by the number of qubits while the matrices come from the protocols for any operation; the function never looks at qid_shape / dimension',
                mod.rel, hits[0].lineno)
     return n
+
+
+# ---------------------------------------------------------------------------------------------------------------------
+# numpy predicates on values that may be symbols.  `np.isclose(gate.exponent, 1)` raises TypeError for a sympy expression.
+SYMBOLIC_ATTRS = {'exponent', '_exponent', 'theta', 'phi', '_theta', '_phi', 'global_shift', 'phase_exponent', 'x_exponent', 'z_exponent', 'axis_phase_exponent', 'rads', '_rads'}
+NUMERIC_PREDICATES = {'isclose', 'round', 'allclose', 'abs', 'sign', 'floor', 'ceil', 'mod', 'fmod', 'rint'}
+
+
+def numeric_predicate_on_symbols_rule(ctx, rid, prefixes, floor=3):
+    from ..flow import dominating_atoms
+    repo = ctx.repo
+    ctx.decided.append(f'{rid} numpy predicates are applied to exponent-like attributes of a gate only where the function (or each of its call sites) tests for parameterization / sympy')
+    ctx.rule(rid, 'symbols do not reach numpy predicates: a function that hands an exponent-like attribute of a gate (exponent, theta, phi, *_exponent, global_shift, rads) to '
+             'np.isclose / np.round / ... (directly or through a module-level helper that does) mentions is_parameterized / sympy itself, or every call of it in the module is dominated '
+             'by such a test - a transformer that promises to pass parameterized circuits through otherwise raises TypeError on the first symbolic gate it inspects', floor=floor, style='RG')
+    n = 0
+    for m in sorted(repo.modules.values(), key=lambda x: x.rel):
+        if m.rel.endswith('_test.py') or not m.rel.startswith(tuple(prefixes)):
+            continue
+        fns = [f for f in ast.walk(m.tree) if isinstance(f, ast.FunctionDef)]
+
+        def uses_np(f):
+            return any(isinstance(c, ast.Call) and isinstance(c.func, ast.Attribute) and isinstance(c.func.value, ast.Name) and c.func.value.id in ('np', 'numpy')
+                       and c.func.attr in NUMERIC_PREDICATES for c in ast.walk(f))
+        helpers = {f.name for f in fns if uses_np(f) and f.args.args}
+        par = None
+        for fn in fns:
+            hits = []
+            for c in ast.walk(fn):
+                if not isinstance(c, ast.Call):
+                    continue
+                isnp = isinstance(c.func, ast.Attribute) and isinstance(c.func.value, ast.Name) and c.func.value.id in ('np', 'numpy') and c.func.attr in NUMERIC_PREDICATES
+                ish = isinstance(c.func, ast.Name) and c.func.id in helpers and c.func.id != fn.name
+                if (isnp or ish) and any(isinstance(x, ast.Attribute) and x.attr in SYMBOLIC_ATTRS for a in c.args for x in ast.walk(a)):
+                    hits.append(c)
+            if not hits:
+                continue
+            n += 1
+            src = ast.unparse(fn)
+            ok = 'is_parameterized' in src or 'sympy' in src
+            if not ok:
+                if par is None:
+                    par = m.parents()
+                sites = [c for f2 in fns for c in ast.walk(f2) if isinstance(c, ast.Call) and isinstance(c.func, ast.Name) and c.func.id == fn.name]
+                ok = bool(sites) and all(any('is_parameterized' in ast.unparse(a) or 'sympy' in ast.unparse(a) for a, _ in dominating_atoms(par, c, None)) for c in sites)
+            ctx.ob(rid, f'{m.name}.{fn.name}:symbols-kept-from-numpy', ok, '' if ok else
+                   f'`{ast.unparse(hits[0])[:70]}` applies a numpy predicate to a value that may be a sympy expression, and neither the function nor all of its call sites test for that',
+                   m.rel, hits[0].lineno)
+    if n == 0:
+        raise AnalysisError(f'{rid}: no numpy predicate on an exponent-like attribute found under {prefixes}')
